@@ -268,6 +268,7 @@ class LoopMixin:
                 v.open = True
 
     def generalise(self, node, key, pre):
+        okey, key = key, key[:2]      # consumer keys carry a per-path Frame object: not part of the widening identity
         level = self.an.widen.get((id(node), key), 1)
         it = self
 
